@@ -161,6 +161,8 @@ func K4() *Entry {
 		F("CountInt", Sc(ir.Int64), Cast("int")), F("CountInts", Sc(ir.Int64), Rep(), Cast("int")), F("Letter", Sc(ir.Int32), Cast("rune")), F("Total", Sc(ir.Uint64), Cast("uint")),
 		F("Opaque", Sc(ir.Bytes), Custom("CustomA")), F("OpaqueValue", Sc(ir.Bytes), Custom("CustomA"), NonNull()),
 		F("Switches", Sc(ir.Bool), Rep(), Custom("CustomB")),
+		// the same custom types once more: a suffixes entry serves every field of its type
+		F("Toggle", Sc(ir.Bool), Custom("CustomB"), NonNull()), F("PlainToo"),
 		F("Joined"), F("Plain"),
 		// custom type names with underscores keep them in the default suffix (only dots and slashes go)
 		F("Under", Sc(ir.Bytes), Custom("Custom_C")), F("UnderPath"),
@@ -170,7 +172,7 @@ func K4() *Entry {
 	AutoComments(f)
 	c := BaseConfig("Casts")
 	// custom types through configuration: one with the default suffix, one with a suffixes entry
-	c.CustomTypes = map[string]string{"Casts.Joined": "verif/types.Joined", "Casts.Plain": "verif/types.Labels", "Casts.UnderPath": "verif/my_lib/api_v2.Owner_Ref"}
+	c.CustomTypes = map[string]string{"Casts.Joined": "verif/types.Joined", "Casts.Plain": "verif/types.Labels", "Casts.PlainToo": "verif/types.Labels", "Casts.UnderPath": "verif/my_lib/api_v2.Owner_Ref"}
 	c.Suffixes = map[string]string{"CustomB": "Switch", "verif/types.Labels": "LabelSet"}
 	return &Entry{Name: "k4", File: f, Cfg: c, Tags: []string{"cast", "custom", "oneof"}}
 }
